@@ -2,16 +2,20 @@ package scen
 
 import (
 	crand "crypto/rand"
+	"encoding/hex"
 	"errors"
 	"fmt"
 	"io"
 	"runtime"
 	"sort"
+	"strings"
 	"sync"
 	"sync/atomic"
 	"time"
 
 	"github.com/gocql/gocql"
+
+	"github.com/gocql/gocql/verifsim/kernel"
 )
 
 // Scenario uuid (C19, the clauses with a clock or concurrency in them): 2-8 goroutines
@@ -27,11 +31,12 @@ func init() {
 		Name:       "uuid",
 		Properties: []string{"C19"},
 		Run:        runUUID,
-		Real:       []string{"gocql.TimeUUID / UUIDFromTime / UUID.Time / Timestamp / Version / Variant / String / ParseUUID (real code)", "Go runtime scheduler and atomics (real)"},
+		Real:       []string{"gocql.TimeUUID / UUIDFromTime / UUID.Time / Timestamp / Version / Variant / String / ParseUUID / UnmarshalText / UnmarshalJSON (real code)", "Go runtime scheduler and atomics (real)"},
 		Stub:       []string{"clock (testing/synctest fake clock: stalled while goroutines run, forward jumps only)", "callers (scripted goroutines)"},
 		Rule: "one run = 1-6 batches; in each batch 2-8 goroutines released together generate 1-200 time-UUIDs each with TimeUUID() or UUIDFromTime(time.Now()) at one stalled instant, " +
 			"batches separated by a tape-chosen forward jump (0 = same instant, 1 ns ... 1000 h); at most 16383 UUIDs share one instant (the 14-bit clock sequence is the stated bound: more cannot be distinct); " +
-			"plus 4-24 UUIDs built from tape-chosen instants between 1583 and 5000 AD; distinct = distinct canonical-log fingerprint; non-trivial = at least one batch shared its instant with another batch or more than one goroutine generated in a batch (counted as uuid.variant faults) and at least one batch completed",
+			"plus 4-24 UUIDs built from tape-chosen instants between 1583 and 5000 AD; plus 6-24 texts built from the tape (0-80 hex digits in lower/upper/mixed case; hyphens in the printed places, none, between all bytes, inside bytes, leading, trailing, doubled, padding up to 32-40 characters; one non-hex rune replacing or added at start/middle/end, braces, urn:uuid: prefixes, spaces) " +
+			"given to ParseUUID, UnmarshalText and UnmarshalJSON and judged by a reference rule (must reject: a byte that is neither hex digit nor hyphen, or not exactly 32 digits; must accept: 32 digits without hyphens or in the printed 8-4-4-4-12 form; other hyphen placements with 32 digits: either answer, bytes checked when accepted); distinct = distinct canonical-log fingerprint; non-trivial = at least one batch shared its instant with another batch or more than one goroutine generated in a batch (counted as uuid.variant faults) and at least one batch completed",
 	})
 }
 
@@ -360,6 +365,12 @@ func runUUID(e *Env) {
 		k.Probe("uuid.instant>4000")
 	}
 	k.OpDone()
+
+	// ---- texts built from the tape, judged by a reference rule written from the property ----
+	if !uuidParseTexts(e, prev) {
+		return
+	}
+	k.OpDone()
 }
 
 // 15 Oct 1582 00:00 UTC, from the RFC, not from the code; uuidEpochTicks lets the
@@ -400,4 +411,400 @@ func (f *flakyReader) Read(p []byte) (int, error) {
 		return 0, errors.New("random source unavailable")
 	}
 	return f.r.Read(p)
+}
+
+// ---------------------------------------------------------------------------------------
+// Parsing (C19: "parsing rejects every string that does not consist of exactly 32 hex
+// digits plus optional separating hyphens", and what is printed parses back).
+//
+// The reference rule below is written from that sentence and looks at the bytes of the
+// text, never at the driver:
+//
+//	must reject  the text holds a byte that is neither a hex digit nor '-', or the number
+//	             of hex digits differs from 32 (including none at all, and the empty text);
+//	must accept  exactly 32 hex digits (either case) and either no hyphen at all or the four
+//	             hyphens of the printed form 8-4-4-4-12 (what String() prints, and the
+//	             same digits without separators);
+//	open         exactly 32 hex digits and hyphens elsewhere (leading, trailing, doubled,
+//	             between other bytes, inside a byte): the property calls hyphens "optional"
+//	             and "separating" and says no more, so both answers are allowed; the driver
+//	             takes any number of hyphens between whole bytes and refuses one that
+//	             splits a byte. uuidStrictHyphens turns that reading into the rule.
+//
+// Whatever is accepted must decode to the 16 bytes the 32 digits spell and print as the
+// lower-case 8-4-4-4-12 form; whatever is rejected returns an error and leaves the variable
+// decoded into either untouched or zero (never half-decoded).
+// ---------------------------------------------------------------------------------------
+
+// uuidStrictHyphens decides the open class by the driver's documented reading ("a 32
+// digit hexadecimal number that might contain hyphens": any number of them, each between
+// two whole bytes). Off: the property text does not settle it.
+const uuidStrictHyphens = false
+
+type uuidVerdict int
+
+const (
+	uuidMustReject uuidVerdict = iota
+	uuidMustAccept
+	uuidOpen
+)
+
+func (v uuidVerdict) String() string { return [...]string{"reject", "accept", "open"}[v] }
+
+// uuidReference judges a text: verdict, the class of the text (the clause that decides
+// it) and, when the text holds exactly 32 hex digits and nothing foreign, the bytes they spell.
+func uuidReference(s string) (v uuidVerdict, class string, want gocql.UUID) {
+	if len(s) == 0 {
+		return uuidMustReject, "empty", want
+	}
+	var digits []byte
+	foreign, hyphens, splitting := 0, 0, 0
+	for i := 0; i < len(s); i++ {
+		c := s[i]
+		switch {
+		case c >= '0' && c <= '9', c >= 'a' && c <= 'f', c >= 'A' && c <= 'F':
+			digits = append(digits, c)
+		case c == '-':
+			hyphens++
+			if len(digits)%2 == 1 {
+				splitting++
+			}
+		default: // every byte of a multi-byte rune is >= 0x80
+			foreign++
+		}
+	}
+	switch {
+	case foreign > 0:
+		return uuidMustReject, "non-hex-rune", want
+	case len(digits) == 0:
+		return uuidMustReject, "only-hyphens", want
+	case len(digits) < 32:
+		return uuidMustReject, "too-few-digits", want
+	case len(digits) > 32:
+		return uuidMustReject, "too-many-digits", want
+	}
+	raw, err := hex.DecodeString(string(digits))
+	if err != nil || len(raw) != 16 {
+		panic("uuid reference: 32 hex digits do not decode") // cannot happen
+	}
+	copy(want[:], raw)
+	switch {
+	case hyphens == 0:
+		return uuidMustAccept, "plain-32", want
+	case hyphens == 4 && len(s) == 36 && s[8] == '-' && s[13] == '-' && s[18] == '-' && s[23] == '-':
+		return uuidMustAccept, "printed-form", want
+	case splitting > 0:
+		if uuidStrictHyphens {
+			return uuidMustReject, "hyphen-inside-byte", want
+		}
+		return uuidOpen, "hyphen-inside-byte", want
+	default:
+		if uuidStrictHyphens {
+			return uuidMustAccept, "hyphens-between-bytes", want
+		}
+		return uuidOpen, "hyphens-between-bytes", want
+	}
+}
+
+// uuidCanonical prints 16 bytes the way RFC 4122 does, without the driver.
+func uuidCanonical(u gocql.UUID) string {
+	return fmt.Sprintf("%x-%x-%x-%x-%x", u[0:4], u[4:6], u[6:8], u[8:10], u[10:16])
+}
+
+// runes that are not hex digits: the neighbours of the digit ranges in ASCII, look-alikes,
+// separators, white space, multi-byte digits and letters, bytes that are not UTF-8. No
+// double quote and no backslash: the same text is also handed to the JSON decoder between quotes.
+var uuidForeign = []string{"g", "G", "/", ":", "@", "`", "x", "X", "o", "O", "l", " ", "\t", "\n", "\r", "\x00", "\x7f",
+	"{", "}", "(", ")", "_", "+", ".", ",", "=", "%", "­", "‐", "−", "－", "０", "９", "ｆ", "Ａ",
+	"٠", "०", "İ", "Ł", "ѡ", "ℹ", "\U0001F535", "\U0001D7D8", "�", "\xff", "\x80", "\xc3", "\xe2\x80"}
+
+// uuidDrawText builds one text from the tape (all zeros: 32 digits '0' in the printed form).
+func uuidDrawText(tp *kernel.Tape) (text string, recipe string) {
+	var how []string
+	// number of hex digits
+	nd := 32
+	switch tp.Weighted([]int{8, 3, 2, 2, 3}) {
+	case 1:
+		nd = []int{31, 33, 30, 34}[tp.Next(4)]
+	case 2:
+		nd = []int{0, 1, 2, 15, 16, 17}[tp.Next(6)]
+	case 3:
+		nd = []int{35, 36, 37, 40, 63, 64}[tp.Next(6)]
+	case 4:
+		nd = tp.Next(81)
+	}
+	how = append(how, fmt.Sprintf("digits=%d", nd))
+	// their values (four per draw) and case
+	caseMode := tp.Next(3) // 0 lower, 1 upper, 2 mixed
+	digits := make([]string, nd)
+	for i := 0; i < nd; i += 4 {
+		v := tp.Next(1 << 16)
+		mask := 0
+		if caseMode == 2 {
+			mask = tp.Next(16)
+		}
+		for j := 0; j < 4 && i+j < nd; j++ {
+			c := "0123456789abcdef"[(v>>(12-4*j))&15]
+			if caseMode == 1 || caseMode == 2 && mask>>j&1 == 1 {
+				c = "0123456789ABCDEF"[(v>>(12-4*j))&15]
+			}
+			digits[i+j] = string(c)
+		}
+	}
+	how = append(how, []string{"lower", "upper", "mixed"}[caseMode])
+	// hyphens: gap[i] of them before digit i, gap[nd] after the last digit
+	gap := make([]int, nd+1)
+	base := tp.Weighted([]int{6, 3, 1, 1})
+	switch base {
+	case 0: // the printed places
+		for _, at := range []int{8, 12, 16, 20} {
+			if at < nd {
+				gap[at] = 1
+			}
+		}
+	case 1: // none
+	case 2: // between all bytes
+		for at := 2; at < nd; at += 2 {
+			gap[at] = 1
+		}
+	case 3: // every third digit: inside bytes too
+		for at := 3; at < nd; at += 3 {
+			gap[at] = 1
+		}
+	}
+	how = append(how, "hyphens="+[]string{"printed", "none", "every-byte", "every-3"}[base])
+	for n := tp.Weighted([]int{5, 2, 1, 1}); n > 0; n-- {
+		cnt := 1
+		if tp.Chance(1, 4) {
+			cnt = 2
+		}
+		switch tp.Next(5) {
+		case 0:
+			gap[0] += cnt
+			how = append(how, "leading")
+		case 1:
+			gap[nd] += cnt
+			how = append(how, "trailing")
+		case 2: // double one that is there (the first one from a tape-chosen place on)
+			from := tp.Next(nd + 1)
+			for i := 0; i <= nd; i++ {
+				if at := (from + i) % (nd + 1); gap[at] > 0 {
+					gap[at] += cnt
+					how = append(how, fmt.Sprintf("doubled@%d", at))
+					break
+				}
+			}
+		case 3: // between two bytes
+			at := 2 * tp.Next(nd/2+1)
+			gap[at] += cnt
+			how = append(how, fmt.Sprintf("extra@%d", at))
+		case 4: // inside a byte
+			if nd >= 2 {
+				at := 1 + 2*tp.Next(nd/2)
+				gap[at] += cnt
+				how = append(how, fmt.Sprintf("extra@%d", at))
+			}
+		}
+	}
+	length := func() int {
+		n := nd
+		for _, g := range gap {
+			n += g
+		}
+		return n
+	}
+	// padding with hyphens up to a total length
+	if pad := tp.Weighted([]int{10, 2, 2, 1, 1, 1, 1}); pad > 0 {
+		target := []int{0, 36, 32, 37, 33, 35, 40}[pad]
+		where := tp.Next(3)
+		from := tp.Next(nd/2 + 1)
+		for i := 0; length() < target; i++ {
+			switch where {
+			case 0:
+				gap[nd]++
+			case 1:
+				gap[0]++
+			case 2: // spread over the places between bytes
+				gap[2*((from+i)%(nd/2+1))]++
+			}
+		}
+		how = append(how, fmt.Sprintf("pad-to-%d:%s", target, []string{"end", "start", "spread"}[where]))
+	}
+	// something that is not a hex digit
+	foreign := tp.Weighted([]int{14, 2, 2, 1, 1, 1})
+	pick := func() string { return uuidForeign[tp.Next(len(uuidForeign))] }
+	posClass := func(n int) (int, string) { // an index in [0,n) of class start / middle / end
+		switch tp.Next(3) {
+		case 0:
+			return 0, "start"
+		case 1:
+			if n > 2 {
+				return 1 + tp.Next(n-2), "middle"
+			}
+			return n / 2, "middle"
+		}
+		return n - 1, "end"
+	}
+	if foreign == 1 && nd > 0 { // in the place of a digit
+		at, cls := posClass(nd)
+		r := pick()
+		digits[at] = r
+		how = append(how, fmt.Sprintf("replace-%s:%q", cls, r))
+	}
+	var tok []string
+	for i := 0; i <= nd; i++ {
+		for g := 0; g < gap[i]; g++ {
+			tok = append(tok, "-")
+		}
+		if i < nd {
+			tok = append(tok, digits[i])
+		}
+	}
+	if foreign == 2 || foreign == 1 && nd == 0 { // added between two characters
+		at, cls := posClass(len(tok) + 1)
+		r := pick()
+		tok = append(tok[:at:at], append([]string{r}, tok[at:]...)...)
+		how = append(how, fmt.Sprintf("insert-%s:%q", cls, r))
+	}
+	text = strings.Join(tok, "")
+	switch foreign {
+	case 3:
+		w := tp.Next(5)
+		text = []string{"{", "{", "", "(", "["}[w] + text + []string{"}", "", "}", ")", "]"}[w]
+		how = append(how, "braces")
+	case 4:
+		pre := []string{"urn:uuid:", "URN:UUID:", "uuid:", "urn:uuid:{", "0x", "urn:"}[tp.Next(6)]
+		text = pre + text
+		how = append(how, "prefix:"+pre)
+	case 5:
+		sp := []string{" ", "\t", "\n", "  ", "\r\n", " ", "　"}[tp.Next(7)]
+		switch tp.Next(3) {
+		case 0:
+			text = sp + text
+		case 1:
+			text = text + sp
+		case 2:
+			text = sp + text + sp
+		}
+		how = append(how, "spaces")
+	}
+	return text, strings.Join(how, ",")
+}
+
+// uuidDecode runs one decoder; a panic is reported, not propagated.
+func uuidDecode(f func() error) (err error, panicked interface{}) {
+	defer func() {
+		if r := recover(); r != nil {
+			panicked = r
+		}
+	}()
+	return f(), nil
+}
+
+// uuidParseTexts draws texts and holds ParseUUID, UnmarshalText and UnmarshalJSON to the
+// reference rule. It reports false after a violation.
+func uuidParseTexts(e *Env, last gocql.UUID) bool {
+	k := e.K
+	tp := k.Tape
+	n := 6 + tp.Next(19)
+	classes := map[string]int{}
+	lens := map[string]bool{}
+	for i := 0; i < n; i++ {
+		text, recipe := uuidDrawText(tp)
+		verdict, class, want := uuidReference(text)
+		classes[verdict.String()+":"+class]++
+		switch l := len(text); {
+		case l < 32:
+			lens["<32"] = true
+		case l == 32:
+			lens["32"] = true
+		case l < 36:
+			lens["33-35"] = true
+		case l == 36:
+			lens["36"] = true
+		default:
+			lens[">36"] = true
+		}
+		if (class == "too-few-digits" || class == "only-hyphens") && len(text) >= 32 {
+			k.Probe("uuid.parse:short-but-padded-to-32+")
+		}
+		// the variable decoded into holds: the last UUID of the run, nothing, all ones
+		old := []gocql.UUID{last, {}, {0xff, 0xff, 0xff, 0xff, 0xff, 0xff, 0xff, 0xff, 0xff, 0xff, 0xff, 0xff, 0xff, 0xff, 0xff, 0xff}}[tp.Next(3)]
+
+		for _, dec := range []string{"ParseUUID", "UnmarshalText", "UnmarshalJSON"} {
+			var got gocql.UUID
+			v := verdict
+			into := false
+			var run func() error
+			switch dec {
+			case "ParseUUID":
+				run = func() (err error) { got, err = gocql.ParseUUID(text); return }
+			case "UnmarshalText":
+				into, got = true, old
+				run = func() error { return got.UnmarshalText([]byte(text)) }
+			case "UnmarshalJSON":
+				into, got = true, old
+				run = func() error { return got.UnmarshalJSON([]byte(`"` + text + `"`)) }
+				if v != uuidMustReject && len(text) > 36 {
+					// longer than the printed form only by surplus hyphens: never "must accept"
+					v = uuidOpen
+				}
+			}
+			err, panicked := uuidDecode(run)
+			if panicked != nil {
+				k.Violate("C19", "C19/parse-panics", "%s(%q) panicked: %v (text %s: %s; built as %s)", dec, text, panicked, v, class, recipe)
+				return false
+			}
+			if err == nil {
+				if v == uuidMustReject {
+					k.Violate("C19", "C19/parse-accepts-malformed:"+class, "%s(%q) succeeded (%s): the text is not 32 hex digits with optional hyphens (%s; %d bytes long; built as %s)",
+						dec, text, got, class, len(text), recipe)
+					return false
+				}
+				if got != want {
+					k.Violate("C19", "C19/parse-wrong-bytes", "%s(%q) gave %s, the 32 digits spell %s (variable held %s before; built as %s)",
+						dec, text, uuidCanonical(got), uuidCanonical(want), uuidCanonical(old), recipe)
+					return false
+				}
+				if got.String() != uuidCanonical(want) {
+					k.Violate("C19", "C19/parse-print-not-canonical", "%s(%q) accepted, but String() prints %q, want %q", dec, text, got.String(), uuidCanonical(want))
+					return false
+				}
+				if v == uuidOpen {
+					k.Probe("uuid.parse-open-accepted")
+				}
+				continue
+			}
+			if v == uuidMustAccept {
+				k.Violate("C19", "C19/parse-rejects-wellformed", "%s(%q) failed with %v: the text is exactly 32 hex digits (%s; built as %s)", dec, text, err, class, recipe)
+				return false
+			}
+			if into && got != old && got != (gocql.UUID{}) {
+				k.Violate("C19", "C19/parse-reject-clobbers-target", "%s(%q) failed (%v) and left %s in a variable that held %s: neither untouched nor zero (built as %s)",
+					dec, text, err, uuidCanonical(got), uuidCanonical(old), recipe)
+				return false
+			}
+			if v == uuidOpen {
+				k.Probe("uuid.parse-open-rejected")
+			}
+		}
+	}
+	var keys []string
+	for c := range classes {
+		keys = append(keys, c)
+	}
+	sort.Strings(keys)
+	var parts []string
+	for _, c := range keys {
+		parts = append(parts, fmt.Sprintf("%s=%d", c, classes[c]))
+		k.Probe("uuid.parse:" + c)
+	}
+	var ls []string
+	for l := range lens {
+		ls = append(ls, l)
+	}
+	sort.Strings(ls)
+	k.Rec("texts parsed=%d %s lengths=%s", n, strings.Join(parts, " "), strings.Join(ls, ","))
+	e.Note("parse_texts", n)
+	return true
 }
